@@ -3,6 +3,7 @@ mod calls;
 mod docs;
 mod project;
 mod shared;
+mod stdmeta;
 mod subsets;
 mod variants;
 mod fraction;
@@ -24,6 +25,7 @@ fn main() {
         "subsets" => subsets::main(&args[1..]),
         "meta" => meta::main(&args[1..]),
         "shared" => shared::main(&args[1..]),
+        "stdmeta" => stdmeta::main(&args[1..]),
         "variants" => variants::main(&args[1..]),
         "fraction" => fraction::main(&args[1..]),
         "selfcheck" => println!("ok"),
